@@ -17,7 +17,14 @@ import (
 // (permutations, deletions) of the package can be checked the same way. Packages with errors, cgo or no Go files are
 // skipped (reported in skipped).
 func LoadDir(dir string, patterns ...string) (pkgs []*Pkg, skipped []string) {
+	return LoadDirTests(dir, false, patterns...)
+}
+
+// LoadDirTests is LoadDir with the test variants of the packages (p, p [p.test], p_test [p.test]; the synthesized
+// p.test main packages are left out). Pkg.Name is the go list ID of the variant.
+func LoadDirTests(dir string, tests bool, patterns ...string) (pkgs []*Pkg, skipped []string) {
 	cfg := &packages.Config{
+		Tests: tests,
 		Mode: packages.NeedName | packages.NeedFiles | packages.NeedCompiledGoFiles | packages.NeedImports |
 			packages.NeedTypes | packages.NeedSyntax | packages.NeedTypesInfo | packages.NeedTypesSizes | packages.NeedModule,
 		Dir: dir,
@@ -29,6 +36,9 @@ func LoadDir(dir string, patterns ...string) (pkgs []*Pkg, skipped []string) {
 	}
 	sort.Slice(lp, func(i, j int) bool { return lp[i].ID < lp[j].ID })
 	for _, l := range lp {
+		if tests && strings.HasSuffix(l.ID, ".test") {
+			continue
+		}
 		if len(l.Errors) > 0 {
 			skipped = append(skipped, fmt.Sprintf("%s: %v", l.ID, l.Errors[0]))
 			continue
